@@ -450,6 +450,13 @@ class Corr(object):
                         self.res.disagreements.append({'stream': stream, 'case': case,
                                                        'model': 'inside docOK, docTextOK, repMarkup(ascii) but read(encode(serialize)) != canon',
                                                        'real': 'theorem xml_roundtrip_partial'})
+                if len(model) >= 9:
+                    ininp = str(model[8]) == 'T'
+                    self.res.count('theorem-input-text-domain:%s:%s' % (stream, 'inside' if ininp else 'outside'))
+                    if ininp and not (str(model[2]) == 'T' and str(model[3]) == 'T'):
+                        self.res.disagreements.append({'stream': stream, 'case': case,
+                                                       'model': 'inside docOK and inputTextOK but not docTextOK / read(serialize) != canon',
+                                                       'real': 'theorem xml_roundtrip_partial'})
                 if len(model) >= 8:
                     inid, iholds = (str(model[6]) == 'T'), (str(model[7]) == 'T')
                     self.res.count('theorem-idem-domain:%s:%s' % (stream, 'inside' if inid else 'outside'))
